@@ -262,6 +262,10 @@ func (g *gen) scenarioW(n int, big bool, reopenPct int) []op {
 		case x < 54:
 			ops = append(ops, op{name: "del", a: key()})
 		case x < 68:
+			if g.rnd.Chance(30) {
+				ops = append(ops, op{name: "batch", muts: g.bigBatch(pool, g.bigBatchSize())})
+				continue
+			}
 			var ms []mut
 			for j, k := 0, g.rnd.Intn(7); j < k; j++ {
 				mk := key()
@@ -293,6 +297,116 @@ func (g *gen) scenarioW(n int, big bool, reopenPct int) []op {
 		}
 	}
 	return ops
+}
+
+// bigBatchSize: sizes around the points where library sorts change algorithm (Go: insertion sort up
+// to 12 elements; others at ~50 and ~256) and well beyond.
+func (g *gen) bigBatchSize() int {
+	switch x := g.rnd.Intn(100); {
+	case x < 15:
+		return 11 + g.rnd.Intn(4) // 11..14
+	case x < 50:
+		return 13 + g.rnd.Intn(38) // 13..50
+	case x < 80:
+		return 51 + g.rnd.Intn(150) // 51..200
+	case x < 92:
+		return 201 + g.rnd.Intn(56) // 201..256
+	default:
+		return 257 + g.rnd.Intn(144) // 257..400
+	}
+}
+
+// bigBatch: n mutations over a handful of hot keys, so that every hot key is hit many times with
+// conflicting kinds (set-then-delete, delete-then-set, set-then-set with different values),
+// interleaved with sets that are over the size limits (skipped, must not disturb the order).
+// Only the order of the queue decides the outcome: any reordering of equal keys shows.
+func (g *gen) bigBatch(pool [][]byte, n int) []mut {
+	var hot [][]byte
+	for len(hot) < 1+g.rnd.Intn(5) {
+		k := pool[g.rnd.Intn(len(pool))]
+		if len(k) <= sorted.MaxKeySize {
+			hot = append(hot, k)
+		}
+	}
+	ms := make([]mut, 0, n)
+	for j := 0; j < n; j++ {
+		k := hot[g.rnd.Intn(len(hot))]
+		if g.rnd.Chance(15) {
+			k = pool[g.rnd.Intn(len(pool))]
+		}
+		switch x := g.rnd.Intn(100); {
+		case x < 38:
+			ms = append(ms, mut{del: true, k: k})
+		case x < 45: // oversize value on a hot key: skipped
+			ms = append(ms, mut{k: k, v: bytes.Repeat([]byte{byte(j)}, sorted.MaxValueSize+1)})
+		case x < 50: // oversize key: skipped
+			ms = append(ms, mut{k: cat(k, bytes.Repeat([]byte{0xff}, sorted.MaxKeySize+1-len(k))), v: []byte{byte(j)}})
+		default: // the position in the queue is part of the value: set-then-set conflicts are visible
+			ms = append(ms, mut{k: k, v: []byte{byte(j >> 8), byte(j), byte(g.rnd.U64())}})
+		}
+	}
+	return ms
+}
+
+func sizeBucket(n int) string {
+	switch {
+	case n == 0:
+		return "0"
+	case n <= 12:
+		return "1-12"
+	case n <= 50:
+		return "13-50"
+	case n <= 256:
+		return "51-256"
+	}
+	return "257+"
+}
+
+// batchHits: size of the batch, how often its most repeated key occurs, which conflicting
+// successions on one key it contains.
+func (g *gen) batchHits(o op) {
+	r := g.r
+	n := len(o.muts)
+	r.Hit("batch:size:" + sizeBucket(n) + ":" + g.impl)
+	cnt := map[string]int{}
+	last := map[string]int{} // 1 = set (kept), 2 = delete
+	conf := map[string]bool{}
+	maxRep, oversize := 0, 0
+	for _, m := range o.muts {
+		k := string(m.k)
+		cnt[k]++
+		if cnt[k] > maxRep {
+			maxRep = cnt[k]
+		}
+		kind := 2
+		if !m.del {
+			if !sizesOK(m.k, m.v) {
+				oversize++
+				continue
+			}
+			kind = 1
+		}
+		switch {
+		case last[k] == 1 && kind == 2:
+			conf["set-then-delete"] = true
+		case last[k] == 2 && kind == 1:
+			conf["delete-then-set"] = true
+		case last[k] == 1 && kind == 1:
+			conf["set-then-set"] = true
+		}
+		last[k] = kind
+	}
+	if n > 0 {
+		r.Hit("batch:max-repeat-of-a-key:" + sizeBucket(maxRep))
+	}
+	if n > 12 {
+		for c := range conf {
+			r.Hit("batch:over12:conflict:" + c + ":" + g.impl)
+		}
+		if oversize > 0 {
+			r.Hit("batch:over12:with-oversize-skipped")
+		}
+	}
 }
 
 func short(s string) string {
@@ -339,6 +453,7 @@ func (g *gen) do(o op) {
 	switch o.name {
 	case "batch":
 		r.Hit("batch:" + g.impl)
+		g.batchHits(o)
 	case "reopen":
 		if out == "ok" {
 			r.Hit("reopen:" + g.impl)
@@ -554,7 +669,7 @@ func (g *gen) malformedCase(c implCfg) {
 func Run(r *hk.Run) {
 	defer Cleanup()
 	g := &gen{r: r, rnd: r.R}
-	r.Res.Rule = "a scenario is a random sequence of get/set/del/batch/find/flush/reopen/dump over a small key universe (one random base with its 0x00/0xff/'|'/':' extensions and prefixes, the empty key, index-like keys; in 'big' scenarios also 766/767/768-byte keys and 62999/63000/63001-byte values); every scenario is run as one case on each of mem, leveldb, kvfile, sqlite, buffer(mem,mem) with maxBuffer -1, 0, 40 and 1000000, and buffer(mem, leveldb|kvfile|sqlite); reopen-heavy scenarios (25% reopen) make leveldb compact; each answer is compared with the Lean model (correspondence) and with a reference map (oracle). distinct = distinct (implementation, op sequence) with at least 2 mutations and 2 reads"
+	r.Res.Rule = "a scenario is a random sequence of get/set/del/batch/find/flush/reopen/dump over a small key universe with batches of 0-6 and of 11-400 mutations (the large ones over 1-5 hot keys with conflicting set/delete successions and interleaved oversize sets) (one random base with its 0x00/0xff/'|'/':' extensions and prefixes, the empty key, index-like keys; in 'big' scenarios also 766/767/768-byte keys and 62999/63000/63001-byte values); every scenario is run as one case on each of mem, leveldb, kvfile, sqlite, buffer(mem,mem) with maxBuffer -1, 0, 40 and 1000000, and buffer(mem, leveldb|kvfile|sqlite); reopen-heavy scenarios (25% reopen) make leveldb compact; each answer is compared with the Lean model (correspondence) and with a reference map (oracle). distinct = distinct (implementation, op sequence) with at least 2 mutations and 2 reads"
 
 	cfgs := []implCfg{{"mem", ""}, {"leveldb", ""}, {"kvfile", ""}, {"sqlite", ""},
 		{"buffer", "-1"}, {"buffer", "0"}, {"buffer", "40"}, {"buffer", "1000000"},
@@ -595,6 +710,29 @@ func Run(r *hk.Run) {
 		}
 	}
 	r.Sample(map[string]any{"kind": "fixed", "ops": fixed[0]})
+
+	// deterministic large batches: two keys hit alternately, the queue order alone decides the result
+	// (an engine that reorders mutations of one key, e.g. by an unstable sort by key, shows here)
+	for _, n := range []int{12, 13, 14, 51, 200, 257, 400} {
+		var ms []mut
+		ka, kb, kc := []byte("a"), []byte("b"), []byte("a\x00")
+		for j := 0; j < n; j++ {
+			k := [][]byte{ka, kb, kc}[j%3]
+			switch (j / 3) % 4 {
+			case 0, 2:
+				ms = append(ms, mut{k: k, v: []byte{byte(j >> 8), byte(j)}})
+			case 1:
+				ms = append(ms, mut{del: true, k: k})
+			default:
+				ms = append(ms, mut{k: k, v: bytes.Repeat([]byte{1}, sorted.MaxValueSize+1)}) // skipped
+			}
+		}
+		ops := []op{{name: "set", a: kb, b: []byte("old")}, {name: "batch", muts: ms}, {name: "find"},
+			{name: "get", a: ka}, {name: "get", a: kb}, {name: "get", a: kc}, {name: "reopen"}, {name: "find"}}
+		for _, c := range cfgs {
+			g.runCase(fmt.Sprintf("fixed-bigbatch-%d", n), c, ops)
+		}
+	}
 
 	nScen, nOps, nBig := 120, 45, 30
 	if r.Thorough() {
